@@ -99,6 +99,19 @@ def canon(c, out):
         # only the completed final state is compared with the model; return values and intermediate states are judged by the oracle
         n = len(out)
         return ["<order-dependent>" if (o.startswith("eng runto") or (o.startswith("eng dump") and i < n - 1)) else l for i, (o, l) in enumerate(zip(c.ops, out))]
+    if c.meta.get("kind") == "repeated":
+        # after a first interruption the value left behind depends on which valid SCC order was followed, hence so does the number of clock
+        # readings the NEXT call needs: only the first return value and the final completing call (return value and state) are compared with
+        # the model; every call in between is judged by the oracle alone (false alarm of the thorough tier, see DESIGN.md section 14)
+        calls = [i for i, o in enumerate(c.ops) if o.startswith("eng runto") or o.startswith("eng run ")]
+        first, final = calls[0], calls[-1]
+        res = []
+        for i, (o, l) in enumerate(zip(c.ops, out)):
+            if i <= first or i >= final: res.append(l)
+            elif i == first + 1 and o.startswith("eng dump"): res.append("<state at interruption>" if out[first] == "false" else l)
+            elif out[first] == "false" and (o.startswith("eng runto") or o.startswith("eng dump")): res.append("<order-dependent>")
+            else: res.append(l)
+        return res
     res, last = [], None
     for o, l in zip(c.ops, out):
         if o.startswith("eng runto") or o.startswith("eng run "): last = l
